@@ -76,18 +76,21 @@ def corruption_class(spec):
     if tag in DICT_TAGS:
         items = spec[1] if tag not in ("defaultdict", "mydefaultdict") else spec[2]
         keys = [k for k, _ in items]
-        if any(k[0] == "bool" for k in keys):
-            return "dict-bool-key"
         texts = [json_key_text(k) for k in keys]
         if len(set(texts)) != len(texts):
             return "dict-colliding-keys"
+        if any(k[0] == "bool" for k in keys):
+            return "dict-bool-key"
         if any(v[0] == "property" for _, v in items):
             return "dict-property-value"
         if tag == "mydefaultdict":
             return "defaultdict-subclass"
         return "dict-other"
     if tag == "objarray":
-        if len(spec[1]) != 1 and any(x[0] in ("list", "tuple", "mylist", "namedtuple", "mytuple", "ndarray", "objarray") for x in spec[2]):
+        # np.array(tmp, dtype="O") is used for every rank but 1: cells that are sequences (and, for rank 0, any cell whose
+        # state has a list as content: list/tuple/set) become axes
+        if len(spec[1]) != 1 and any(x[0] in ("list", "tuple", "mylist", "namedtuple", "mytuple", "ndarray", "objarray", "matrix", "masked") or
+                                     (not spec[1] and x[0] == "set") for x in spec[2]):
             return "objarray-of-sequences"
         return "objarray-other"
     if tag in ("myint", "mystr"):
